@@ -186,6 +186,8 @@ type Exec struct {
 	maxDepth int
 	inlineSet bool
 	preserveSorts map[string]Sort // heap arrays of sole-writer fields (solewriter.go): kept across call havocs
+	localBoxes    []localBox      // captured local variables no callee can reach (solewriter.go)
+	curSite       ssa.Instruction // call instruction being executed (innermost)
 	sweep    bool // zero-annotation safety sweep: infer loop invariants
 	noSafety bool // suppress safety obligations (functional contracts only)
 	cands    []*candidate
